@@ -44,7 +44,7 @@ def gen_case(rnd, prop, tier):
     sizes = gen.gen_sizes(rnd, n, max_size=4, max_joint=4096)
     cliques, kind = gen.gen_cliques(rnd, attrs, max_width=3)
     ninf = rnd.choice([0.0, 0.15, 0.4])
-    scale = rnd.choice([0.5, 1.0, 3.0])
+    scale = rnd.choice([0.5, 1.0, 3.0, 3.0, 12.0])      # 12: cells of probability ~1e-20 that adversarial outcomes still select
     witness = {a: rnd.randrange(s) for a, s in zip(attrs, sizes)}
     pots = []
     for cl in cliques:
